@@ -561,3 +561,55 @@ def eval_paths(ctx, paths, env, calls=None):
             vals = eval_nodes(ctx, env, [outs[k] for k in names], calls)
             return dict(zip(names, vals))
     raise TraceError("no path matches the concrete input")
+
+# ---------------------------------------------------------------------------
+# structural replay of an IR inside the current context (used to compare DAGs up to hash-consing)
+
+def replay(src_ctx, roots, env):
+    """Re-apply the operations of `src_ctx` (node ids `roots`) to the Sym values in env (var name -> Sym of the
+    CURRENT context) with the same overloaded operators, so that structurally equal expressions get equal node ids."""
+    memo = {}
+
+    def ev(i):
+        stack = [i]
+        while stack:
+            j = stack[-1]
+            if j in memo:
+                stack.pop()
+                continue
+            n = src_ctx.nodes[j]
+            op = n[0]
+            if op == 'var':
+                memo[j] = lift(env[n[1]])
+                stack.pop()
+                continue
+            if op == 'const':
+                memo[j] = lift(n[1])
+                stack.pop()
+                continue
+            args = n[2:] if op == 'call' else n[1:]
+            pend = [a for a in args if a not in memo]
+            if pend:
+                stack.extend(pend)
+                continue
+            v = [memo[a] for a in args]
+            if op == 'add': r = v[0] + v[1]
+            elif op == 'sub': r = v[0] - v[1]
+            elif op == 'mul': r = v[0] * v[1]
+            elif op == 'div': r = v[0] / v[1]
+            elif op == 'neg': r = -v[0]
+            elif op == 'abs': r = abs(v[0])
+            elif op in ('sin', 'cos', 'tan', 'sqrt'): r = getattr(v[0], op)()
+            elif op == 'asin': r = v[0].arcsin()
+            elif op == 'acos': r = v[0].arccos()
+            elif op == 'atan': r = v[0].arctan()
+            elif op == 'atan2': r = v[0].arctan2(v[1])
+            elif op == 'pymod': r = v[0] % float(v[1])
+            elif op == 'call': r = Sym.call(n[1], *v)
+            else:
+                raise TraceError(f"replay: unsupported op {op}")
+            memo[j] = r
+            stack.pop()
+        return memo[i]
+
+    return [ev(r) for r in roots]
